@@ -174,6 +174,9 @@ type StackOpts struct {
 	WrapLocker   func(locker.Service) locker.Service
 	WrapRuler    func(ruler.Service) ruler.Service
 	Process      process.Service // optional, for the account manager
+	// SharedFetcher, if set, is used instead of building a new mem fetcher (populating the fetcher
+	// deserialises every account; checks with hundreds of accounts share one across cases).
+	SharedFetcher *memfetcher.Service
 }
 
 // Stack is a signer stack of real services.
@@ -268,12 +271,12 @@ func (s *Stack) start() error {
 		s.Checker = opts.WrapChecker(chk)
 	}
 
-	mf, err := memfetcher.New(bg,
-		memfetcher.WithStores([]e2wtypes.Store{opts.World.Store}),
-		memfetcher.WithEncryptor(Encryptor()),
-	)
-	if err != nil {
-		return fmt.Errorf("fetcher: %w", err)
+	mf := opts.SharedFetcher
+	if mf == nil {
+		mf, err = NewFetcher(opts.World)
+		if err != nil {
+			return fmt.Errorf("fetcher: %w", err)
+		}
 	}
 	s.MemFetch = mf
 	s.Fetcher = mf
@@ -382,6 +385,14 @@ func (s *Stack) SetProcess(p process.Service) error {
 	}
 
 	return nil
+}
+
+// NewFetcher builds a mem fetcher over the world's store.
+func NewFetcher(w *World) (*memfetcher.Service, error) {
+	return memfetcher.New(context.Background(),
+		memfetcher.WithStores([]e2wtypes.Store{w.Store}),
+		memfetcher.WithEncryptor(Encryptor()),
+	)
 }
 
 // StopRules closes the rules store (clean shutdown of the storage).
